@@ -5,6 +5,7 @@ import (
 	"go/ast"
 	"go/token"
 	"go/types"
+	"math"
 	"strings"
 
 	"verif/checker/internal/astx"
@@ -1340,7 +1341,30 @@ func boundedRead(c *core.Ctx) {
 			}
 			limited++
 		})
-		c.Check(len(probs) == 0 && limited > 0, spec.fn+"/limit-reader", readFrom.Pos(), "whenever N > 0 the buffer is filled through io.LimitReader(src, N+1) (%d path(s))%s", limited, joinProblems(probs))
+		// N = MaxInt64: N+1 would wrap negative and LimitReader would return EOF at once; the path
+		// that computes N+1 must be infeasible for that N
+		astx.ForEachPathTo(info, fd.Body, readFrom, func(s *astx.State) {
+			var facts []astx.Cond
+			for _, f := range s.Facts {
+				facts = append(facts, astx.Cond{Expr: f.Expr, Pol: f.Pol})
+			}
+			ok, err := (astx.DNF{facts}).Eval(info, env(math.MaxInt64, 0), keep, nil)
+			if err != nil || !ok {
+				return
+			}
+			arg := astx.Unparen(readFrom.Args[0])
+			if obj := astx.ObjOf(info, arg); obj != nil {
+				if rhs := s.LastAssigned(info, obj); rhs != nil {
+					arg = astx.Unparen(rhs)
+				}
+			}
+			if lc, isCall := arg.(*ast.CallExpr); isCall && astx.IsPkgFunc(astx.Callee(info, lc), "io", "LimitReader") && len(lc.Args) == 2 {
+				if n, err := astx.EvalInt(info, lc.Args[1], env(math.MaxInt64, 0), nil); err == nil && n <= 0 {
+					probs = append(probs, "for N = MaxInt64 the LimitReader bound N+1 wraps to a negative number: nothing is read and every message arrives empty")
+				}
+			}
+		})
+		c.Check(len(probs) == 0 && limited > 0, spec.fn+"/limit-reader", readFrom.Pos(), "whenever N > 0 the buffer is filled through io.LimitReader(src, N+1), and never with a wrapped bound for N = MaxInt64 (%d path(s))%s", limited, joinProblems(probs))
 		// success exits / decode sites need count <= max
 		var targets []ast.Node
 		if spec.decode != "" {
